@@ -49,7 +49,22 @@ fn gen_list(src: &mut Src, rep: &mut Report) -> Vec<f64> {
     // perturbations
     let p = src.below(16);
     match p {
-        0..=6 => {}
+        0..=5 => {}
+        6 => {
+            // wide configuration: 20-129 further bounds on an increasing ladder (the library imposes no limit on the number)
+            if v.last().map_or(false, |l| !(l.abs() < 1e15)) {
+                v.clear();
+            }
+            let mut x = v.last().copied().unwrap_or(-3.0);
+            let m = 20 + src.below(110);
+            let step = [1.0, 0.5, 0.25, 3.0, 1024.0][src.below(5)];
+            let geometric = src.chance(64);
+            for k in 0..m {
+                x = if geometric && x > 0.0 { x * 1.5 } else { x + step * (1 + k % 3) as f64 };
+                v.push(x);
+            }
+            rep.class("list:wide(>=20 bounds)");
+        }
         7 if v.len() >= 2 => {
             let i = src.below(v.len());
             let j = src.below(v.len());
@@ -136,7 +151,7 @@ impl Property for C08 {
     }
     fn rule(&self) -> &'static str {
         "case = bucket list (sorted distinct f64 of every class, then perturbed: swap / duplicate / NaN / +Inf trailing or anywhere / \
-         -Inf first / signed-zero pair / empty) x delivery path (Histogram, HistogramVec child, LocalHistogram) x 0-40 operations \
+         -Inf first / signed-zero pair / empty / wide: 20-129 further bounds on an arithmetic or geometric ladder) x delivery path (Histogram, HistogramVec child, LocalHistogram) x 0-40 operations \
          (observe of bounds, bounds +-1ulp, +-0, subnormals, +-inf, NaN, arbitrary bit patterns; local observe/flush/clear; collect). \
          Oracle: acceptance predicate of the statement; naive count(v <= b), n, in-order fold reference. Non-trivial: accepted list \
          with >=2 bounds and an observation equal to a bound / non-finite / above every bound, or a rejected list whose defect is not \
